@@ -358,7 +358,11 @@ impl Sub for Classes {
          non-trivial = ≥2 rows share a class while ≥2 do not, and a rewrite rule fired; distinct = hash(files)".into()
     }
     fn check(&self, spec: &TrainSpec, ctx: &mut Ctx) -> Result<(), String> {
-        let mut model = train(spec, true)?;
+        let mut model = match train(spec, true) {
+            Ok(m) => m,
+            Err(e) if crate::props::trainc::is_timeout(&e, ctx) => return Ok(()),
+            Err(e) => return Err(e),
+        };
         if !ctx.strict && known_empty_bigram_table(&mut model)? {
             ctx.count("excluded_by_known_finding_empty_bigram_table_with_user_lexicon", 1);
             return Ok(());
